@@ -166,31 +166,39 @@ inductive UdpEv where
   | silence                                            -- nothing more arrives: the read deadline fires
 deriving DecidableEq, Repr
 
+/-- how the receive loop ended -/
+inductive UdpStop where
+  | timeout      -- read deadline (lookup timeout or script exhausted)
+  | parseError   -- `parseMsg` returned an error: break, fall back to TCP
+  | truncated    -- TC bit: break, fall back to TCP
+  | done         -- both families answered
+deriving DecidableEq, Repr
+
 structure UdpOut where
   b : Builder
   now : Nat
   cancel4 : Bool := false   -- the A sender was told to stop
   cancel6 : Bool := false
   used : Nat := 0           -- events consumed
-  why : String := ""        -- how the loop ended (for the driver only)
+  why : UdpStop := .timeout
 deriving DecidableEq, Repr
 
 def udpLoop (deadline : Nat) (o : UdpOut) : List UdpEv → UdpOut
-  | [] => { o with now := deadline, why := "timeout" }
-  | .silence :: _ => { o with now := deadline, used := o.used + 1, why := "timeout" }
+  | [] => { o with now := deadline, why := .timeout }
+  | .silence :: _ => { o with now := deadline, used := o.used + 1, why := .timeout }
   | .readErr dt :: rest =>
-    if o.now + dt > deadline then { o with now := deadline, why := "timeout" }
+    if o.now + dt > deadline then { o with now := deadline, why := .timeout }
     else udpLoop deadline { o with now := o.now + dt, used := o.used + 1 } rest
   | .dgram dt fromServer w :: rest =>
-    if o.now + dt > deadline then { o with now := deadline, why := "timeout" } else
+    if o.now + dt > deadline then { o with now := deadline, why := .timeout } else
     let o := { o with now := o.now + dt, used := o.used + 1 }
     if !fromServer then udpLoop deadline o rest else
     match parseMsg o.b o.now w true with
-    | (b, none) => { o with b := b, why := "parse-error" }
+    | (b, none) => { o with b := b, why := .parseError }
     | (b, some h) =>
       let o := { o with b := b }
-      if h.tc then { o with why := "truncated" }
-      else if b.isDone then { o with why := "done" }
+      if h.tc then { o with why := .truncated }
+      else if b.isDone then { o with why := .done }
       else udpLoop deadline { o with cancel4 := o.cancel4 || h.id == idV4, cancel6 := o.cancel6 || h.id == idV6 } rest
 
 def sendQueriesUDP (b : Builder) (now : Nat) (evs : List UdpEv) : UdpOut :=
